@@ -33,6 +33,9 @@ ALPHA = [
     ("I-5bad", "-5,-1000,4,7,2,-20,0,0"),
     ("I20fast", "20,-1,4,0,0,100,0,0"),
     ("I10pos", "10,100,4,1,0,100,0,8"),
+    ("I20negidx", "20,-100,4,2,-3,80,0,0"),
+    ("T20bank0", "20,500,4,0,0,100,1,0"),
+    ("I10bank0", "10,-100,4,0,0,100,0,0"),
 ]
 
 FLOAT_RE = re.compile(r"^[+-]?(\d+\.?\d*|\.\d+)([eE][+-]?\d+)?$")
@@ -228,6 +231,16 @@ class C12(Property):
             for k in range(0, kmax + 1):
                 for combo in itertools.product(hexed, repeat=k):
                     cases.append(Case(f"tp {mode} " + " ".join(combo), tags=(f"exhaustive-len{k}",)))
+        # [General] defaults set before (or between) the lines: the sample set / volume a line without those fields takes
+        for mode in (0, 1):
+            for g in ("SampleSet: Soft", "SampleSet:Drum", "SampleVolume: 40"):
+                gh = "g" + hexs(g.encode())
+                for k in range(1, 3):
+                    for combo in itertools.product(hexed, repeat=k):
+                        cases.append(Case(f"tp {mode} {gh} " + " ".join(combo), tags=("general-default-first",)))
+                for a, b in itertools.product(hexed, repeat=2):
+                    if rng.random() < 0.25:
+                        cases.append(Case(f"tp {mode} {a} {gh} {b}", tags=("general-default-between",)))
         # F8 witnesses: both zeros in different groups / in the same group
         for mode in range(4):
             for a, b in [("0", "-0"), ("-0", "0"), ("0.0", "-0.0"), ("0", "0"), ("-0", "-0")]:
